@@ -273,6 +273,25 @@ def run(ctx):
     if witness_fails(v41, "10\n14\n", reps=5):
         ctx.violation({"kind": "modgraph", "mods": v41}, "C15 regression V41: a function literal called from another module does not run in "
                       "the module that created it (or a backend fails) on the recorded witness")
+    # parameters and locals of an imported function named like a global of its module: every cross-module call gets its own
+    # frame and leaves none behind (later calls read and write the module's global)
+    scoped = [
+        ({"main": "import { setx, getx, bump } from a;\nfn main() { println(getx()); setx(42); println(getx()); bump(5); println(getx()); setx(7); println(getx()); }",
+          "a": "let x = 1;\npub fn getx() -> int { x }\npub fn setx(x: int) { println(\"setx\", x); }\npub fn bump(n: int) { let x = n * 2; println(\"bump\", x); }\nfn main() { }"},
+         "1\nsetx 42\n1\nbump 10\n1\nsetx 7\n1\n"),
+        ({"main": "import { shadow, inc, get } from a;\nfn main() { println(shadow(100)); inc(); inc(); println(get()); println(shadow(5)); inc(); println(get()); }",
+          "a": "let cnt = 0;\npub fn shadow(cnt: int) -> int { cnt + 1 }\npub fn inc() { cnt += 1; }\npub fn get() -> int { cnt }\nfn main() { }"},
+         "101\n2\n6\n3\n"),
+        ({"main": "import { via } from a;\nimport { read } from b;\nfn main() { println(via(3)); println(read()); println(via(4)); println(read()); }",
+          "a": "import { put } from b;\nlet ka = 10;\npub fn via(ka: int) -> int { put(ka); ka + 1 }\nfn main() { }",
+          "b": "let store = 0;\npub fn put(store: int) { println(\"put\", store); }\npub fn read() -> int { store }\nfn main() { }"},
+         "put 3\n4\n0\nput 4\n5\n0\n"),
+    ]
+    for mods, want in scoped:
+        ctx.count(case_key=mods, nontrivial=True)
+        if witness_fails(mods, want, reps=3):
+            ctx.violation({"kind": "modgraph", "mods": mods, "want": want}, "C15 scoped calls: a parameter or local of an imported function named like a global of "
+                          "its module disturbs a later cross-module call (or a backend fails): output differs from lexical per-module resolution")
     two = list(mg.family_a()) + list(mg.family_b()) + list(mg.family_c()) + list(mg.family_e()) + list(mg.family_r())
     for i in range(0, len(two), 1000):
         if len(ctx.violations) >= 5:
